@@ -28,7 +28,7 @@ func main() {
 		fmt.Fprintln(os.Stderr, err)
 		os.Exit(2)
 	}
-	rng := lib.NewRng(f.Seed)
+	rng := lib.NewRng(f.Seed*1000003 + 17) // lib's streams for consecutive seeds are one step apart
 	cf := lib.NewCaseFile("C01", f.Seed, f.Tier)
 	cf.Imports = []string{"Rel"}
 	cf.CaseType = "rel_case"
@@ -37,13 +37,43 @@ func main() {
 		"[ORDER BY] [LIMIT]; Int/String/Boolean/NULL expressions) over 1-2 generated CSV/JSON tables (0..8 rows, NULL-heavy, duplicate rows, " +
 		"ints at the int64 limits, strings with non-ASCII and non-UTF-8 bytes, '%'), run through the built CLI with -o json; " +
 		"non-trivial = at least one output row and a WHERE, DISTINCT, ORDER BY, GROUP BY or nested source; distinct by full case text. " +
-		"Never generated: LIMIT 0 and ORDER BY+LIMIT over rows that may repeat (C05's defects), LIMIT without ORDER BY over grouping output (hash order)."
-	n := f.Cases(320, 3200)
+		"Plus the ORDER BY + LIMIT family (runs of fully equal rows, LIMIT 0 .. rows+1, top-level and in a subquery), each case also through " +
+		"-o batch_table, -o csv and -o stream_native. Never generated: LIMIT without ORDER BY over grouping output (hash order)."
+	n := f.Cases(240, 2400)
 	cases, err := relq.Generate(rng, n, relq.Profile{GroupBias: 2, MaxDepth: 2, AllowErrors: true}, bin, home, work)
 	if err != nil {
 		fmt.Fprintln(os.Stderr, err)
 		os.Exit(2)
 	}
+	// the ORDER BY + LIMIT family: runs of equal rows, every limit from 0 to past the end, top-level and nested;
+	// each case goes through every output mode
+	nol := f.Cases(48, 480)
+	if f.N > 0 {
+		nol = f.N / 5
+	}
+	olCases, err := relq.Generate(rng, nol, relq.Profile{OrderLimit: true, Simple: true}, bin, home, filepath.Join(work, "ol"))
+	if err != nil {
+		fmt.Fprintln(os.Stderr, err)
+		os.Exit(2)
+	}
+	first := len(cases)
+	cases = append(cases, olCases...)
+	// the nested-relation family (subquery in FROM / WITH read in part by the outer select), also with the optimizer off
+	nestedCases, err := relq.Generate(rng, nol, relq.Profile{Nested: true, Simple: true}, bin, home, filepath.Join(work, "nested"))
+	if err != nil {
+		fmt.Fprintln(os.Stderr, err)
+		os.Exit(2)
+	}
+	firstNested := len(cases)
+	cases = append(cases, nestedCases...)
+	// the three-valued-logic family (WHERE keeps TRUE only; NULL propagation through NOT / AND / OR / =)
+	logicCases, err := relq.Generate(rng, nol, relq.Profile{Logic: true, Simple: true}, bin, home, filepath.Join(work, "logic"))
+	if err != nil {
+		fmt.Fprintln(os.Stderr, err)
+		os.Exit(2)
+	}
+	firstLogic := len(cases)
+	cases = append(cases, logicCases...)
 	idxs := make([]int, len(cases))
 	for i, c := range cases {
 		idxs[i] = relq.AddCase(cf, c)
@@ -74,8 +104,22 @@ func main() {
 		if pct {
 			jobs = append(jobs, job{i, "stream_native"})
 		}
+		if i >= firstLogic {
+			continue
+		}
+		if i >= firstNested {
+			jobs = append(jobs, job{i, "noopt"})
+			continue
+		}
+		if i >= first {
+			jobs = append(jobs, job{i, "batch_table"}, job{i, "csv"}, job{i, "stream_native"})
+			continue
+		}
 		if i%4 == 0 {
 			jobs = append(jobs, job{i, modes[(i/4)%len(modes)]})
+		}
+		if c.Top.Main.Limit != nil && len(c.Top.Main.OrderBy) > 0 && (i/4)%len(modes) != 2 {
+			jobs = append(jobs, job{i, "batch_table"}) // the table printer sorts and limits on its own
 		}
 	}
 	diffs := make([]string, len(jobs))
